@@ -9,12 +9,19 @@ Local Open Scope Z_scope.
 
 (* the text denotes exactly the document: reading it back with the (proved RFC-complete) reader gives the
    document — every string byte, every integer digit, members in order; float-free documents here, the
-   floating-point leaves are C12's subject (their printing is tied bit-exactly to the code by correspondence) *)
+   floating-point leaves are C12's subject (their printing is tied bit-exactly to the code by correspondence).
+   [nofloat] asks every string and key to be storable: at most 65535 bytes (C02_nofloat_strings below) — the
+   reader refuses a longer one with NoMemory (C17_roundtrip_too_long) *)
 Theorem C02_text_denotes_document : forall cf, decode_unicode cf = true ->
   forall v, nofloat v -> forall L, (nesting v <= L)%nat ->
   j_err (json_run cf None L (ser cf v)) = Ok /\ j_doc (json_run cf None L (ser cf v)) = v.
 Proof. exact json_run_ser. Qed.
 Print Assumptions C02_text_denotes_document.
+
+Theorem C02_nofloat_strings : forall s,
+  nofloat (JStr s) <-> (Forall (fun b => b < 256)%N s /\ (N.of_nat (length s) <= 65535)%N).
+Proof. intro s. exact (iff_refl _). Qed.
+Print Assumptions C02_nofloat_strings.
 
 (* serializeJsonPretty differs only in insignificant whitespace: it reads back to the same document, at
    any starting indentation level (the 8-bit nesting counter may wrap: the text is still whitespace) *)
